@@ -133,3 +133,95 @@ def observe(w, mark):
             'connects': len(w.reactor.connectors) - mark['conn'],
             'cbs': [h[0] for h in w.handler.log[mark['hlog']:]],
             'wire': wire}
+
+
+# ---- bounded sequences from boot -----------------------------------------------------------------
+TIMER_EVS = {'timer:connect_retry': 'connect_retry', 'timer:hold': 'hold', 'timer:keepalive': 'keepalive',
+             'timer:idle_hold': 'idle_hold'}
+TIMER_CLASS = {'connect_retry': 'crt', 'hold': 'holdt', 'keepalive': 'kat', 'idle_hold': 'start_idlehold'}
+
+
+DEFAULT_VALS = {'open_ok': [90, 0x0A000002, 0], 'open_badver': [3, 90, 0], 'open_badas': [65009, 65009, 0],
+                'open_hold12': [1, 0, 0], 'open_badparam': [1, 0, 0], 'upd_bad': [7, 0, 0], 'notif': [6, 2, 0],
+                'rr': [1, 1, 0], 'rr128': [1, 1, 0], 'hdr_marker': [0, 0, 0], 'hdr_len': [18, 0, 0],
+                'hdr_type': [9, 0, 0]}
+
+
+def seq_vals(P, ev):
+    return P.get('vals', {}).get(ev, DEFAULT_VALS.get(ev, [0, 0, 0]))
+
+
+def applicable(w, ev):
+    """can the environment / operator produce this event now?"""
+    r = w.reactor
+    if ev in ('tcp_ok', 'tcp_fail'):
+        return len([c for c in r.connectors if c.state == 'connecting']) >= 1
+    if ev in MSG_EVENTS or ev == 'peer_close':
+        cs = [c for c in r.connectors if c.state == 'connected']
+        return len(cs) >= 1 and not cs[-1].transport.disconnecting
+    if ev == 'close_done':
+        cs = [c for c in r.connectors if c.state == 'connected']
+        return len(cs) >= 1 and cs[-1].transport.disconnecting
+    if ev == 'timer':
+        return len(r.active_calls()) > 0
+    if ev in TIMER_EVS:
+        name = TIMER_EVS[ev]
+        if not w.timer_active(name):
+            return False
+        # only a timer with the earliest deadline may fire (ties in any order)
+        t = w.timer_deadline(name)
+        for other in ('connect_retry', 'hold', 'keepalive', 'delay_open', 'idle_hold'):
+            if other != name and w.timer_active(other) and w.timer_deadline(other) < t:
+                return False
+        return True
+    return True
+
+
+def next_timer(w):
+    best = None
+    for name in ('connect_retry', 'hold', 'keepalive', 'delay_open', 'idle_hold'):
+        if w.timer_active(name):
+            t = w.timer_deadline(name)
+            if best is None or t < best[0]:
+                best = (t, name)
+    return best[1]
+
+
+def run_seq(P, idx, step_check, after_boot=None):
+    """boot; automatic start; then k events chosen by the symbolic indices idx.  step_check(w, info)
+    is evaluated after every step; info = dict(state=pre-state, ev=event class actually run, obs, hold, i)."""
+    evs = P['alphabet']
+    k = P['k']
+    first = P.get('first')
+    w = S.boot(P.get('cfg'))
+    w.ev_auto_start()
+    if after_boot is not None:
+        after_boot(w)
+    for i in range(k):
+        e = idx[i]
+        assume(0 <= e < len(evs))
+        if i == 0 and first is not None:
+            assume(e == first)
+        if i == 1 and P.get('second') is not None:
+            assume(e == P['second'])
+        ev = evs[e]
+        if not applicable(w, ev):
+            assume(False)
+        state = w.state
+        hold = w.fsm.hold_time
+        mark = w.mark()
+        real_ev = ev
+        if ev == 'timer' or ev in TIMER_EVS:
+            name = next_timer(w) if ev == 'timer' else TIMER_EVS[ev]
+            real_ev = TIMER_CLASS[name]
+            w.ev_fire(name)
+        elif ev in MSG_EVENTS:
+            vals = seq_vals(P, ev)
+            w.ev_data(message_for(ev, w, vals[0], vals[1], vals[2]))
+        else:
+            inject(w, ev, 0, 0, 0)
+        obs = observe(w, mark)
+        if not step_check(w, {'state': state, 'ev': real_ev, 'obs': obs, 'hold': hold, 'i': i, 'mark': mark}):
+            return False
+    cover('seq')
+    return True
